@@ -33,7 +33,7 @@ open UtilModel UtilModel.Lin
 structure Node where
   val : Nat
   next : Option Nat
-deriving DecidableEq, Repr
+deriving DecidableEq, Repr, Hashable
 
 inductive LOp where
   | init (vs : List Nat)   -- NewLinkedList(vs…)
@@ -44,7 +44,7 @@ inductive LOp where
   | peekTail
   | isEmpty
   | reset
-deriving DecidableEq, Repr
+deriving DecidableEq, Repr, Hashable
 
 /-- methods that only read (they could run under a read lock) -/
 def LOp.readOnly : LOp → Bool
@@ -61,34 +61,34 @@ inductive LRes where
   | val (v : Nat) (ok : Bool)  -- Pop / Peek / PeekTail: `(val, exists)`; `(0, false)` when empty
   | empty (b : Bool)           -- IsEmpty
   | panic
-deriving DecidableEq, Repr
+deriving DecidableEq, Repr, Hashable
 
 inductive TS where
   | inv (op : LOp)               -- invoked; the locked body has not run yet
   | done (op : LOp) (r : LRes)   -- body executed, lock released; not yet returned
   | retd (op : LOp) (r : LRes)   -- returned
-deriving DecidableEq, Repr
+deriving DecidableEq, Repr, Hashable
 
 /-- the struct fields + the element heap -/
 structure Mem where
   nodes : List Node := []
   head : Option Nat := none
   tail : Option Nat := none
-deriving DecidableEq, Repr
+deriving DecidableEq, Repr, Hashable
 
 structure St where
   mem : Mem := {}
   th : List TS := []
   /-- number of read locks on `l.mtx` held by the environment (the harness) -/
   envR : Nat := 0
-deriving DecidableEq, Repr
+deriving DecidableEq, Repr, Hashable
 
 /-- observables: history events `inv t <op>` / `ret t <result>`, and the environment's read lock -/
 inductive Obs where
   | call (h : HEv LOp LRes)
   | envRLock        -- `env rlock`   (logged after the harness acquired `l.mtx.RLock()`)
   | envRUnlock      -- `env runlock` (logged before the harness calls `l.mtx.RUnlock()`)
-deriving DecidableEq, Repr
+deriving DecidableEq, Repr, Hashable
 
 /-- the history event of an observable (environment events are not part of the history) -/
 def Obs.toH : Obs → Option (HEv LOp LRes)
@@ -101,7 +101,7 @@ inductive Ev where
   | ret (t : Nat) (r : LRes)
   | envRLock
   | envRUnlock
-deriving DecidableEq, Repr
+deriving DecidableEq, Repr, Hashable
 
 def Ev.obs : Ev → Option Obs
   | .inv t op => some (.call (.inv t op))
